@@ -155,7 +155,22 @@ pub fn run(args: &Args) {
     for a in ["/repo/test_assets/ima_signed.rpm", "/repo/test_assets/fixture_packages/rpm-empty-0-0.x86_64.rpm"] {
         starts.push((a.rsplit('/').next().unwrap().to_string(), "foreign", Package::open(a).expect("asset")));
     }
-    let nstarts = args.num("starts", 4) as usize;
+    // main headers larger than any I/O buffer: many files with long paths (built), and the two big assets
+    let mut c2 = gen_::rand_cfg(&mut rng, 0, 0);
+    c2.files.clear();
+    let mut used = vec![];
+    for k in 0..(180 + rng.below(120)) {
+        let mut f = gen_::rand_file(&mut rng, &mut used, 8);
+        f.dest = format!("/usr/share/verif-big/{}/{}/entry-{k:04}.dat", "d".repeat(1 + (k % 40) as usize), k % 7);
+        f.link = None;
+        f.mode = Some(0o100644);
+        c2.files.push(f);
+    }
+    starts.push(("built-bigheader".into(), "none", gen_::build(&c2, &wd).expect("build")));
+    for a in ["/repo/test_assets/rpm-sign-4.15.1-1.fc31.x86_64.rpm", "/repo/test_assets/389-ds-base-devel-1.3.8.4-15.el7.x86_64.rpm"] {
+        starts.push((a.rsplit('/').next().unwrap().to_string(), "foreign", Package::open(a).expect("asset")));
+    }
+    let nstarts = args.num("starts", 7) as usize;
     let handles: Vec<_> = starts.into_iter().take(nstarts).map(|(name, kind, pkg)| {
         let cs = cases.clone();
         std::thread::spawn(move || walk(&name, kind, pkg, &cs, maxlen))
